@@ -81,6 +81,13 @@ namespace detail {
         return lhs == rhs;
     }
 
+    // Whether the value of a numeric keyword (minimum, maximum, ...) can be read as a bigint
+    template <typename Json>
+    bool is_integer_value(const Json& value)
+    {
+        return value.is_int64() || value.is_uint64() || (value.is_string_view() && value.tag() == semantic_tag::bigint);
+    }
+
 } // namespace detail
     
     template <typename Json>
@@ -1614,7 +1621,7 @@ namespace detail {
                     }
                 }
             }
-            else if (instance.is_string_view() && instance.tag() == semantic_tag::bigint)
+            else if (instance.is_string_view() && instance.tag() == semantic_tag::bigint && detail::is_integer_value(value_))
             {
                 auto sv1 = instance.as_string_view();
                 bigint n1(sv1.data(), sv1.length());
@@ -1709,7 +1716,7 @@ namespace detail {
                     }
                 }
             }
-            else if (instance.is_string_view() && instance.tag() == semantic_tag::bigint)
+            else if (instance.is_string_view() && instance.tag() == semantic_tag::bigint && detail::is_integer_value(value_))
             {
                 auto sv1 = instance.as_string_view();
                 bigint n1(sv1.data(), sv1.length());
@@ -1804,7 +1811,7 @@ namespace detail {
                     }
                 }
             }
-            else if (instance.is_string_view() && instance.tag() == semantic_tag::bigint)
+            else if (instance.is_string_view() && instance.tag() == semantic_tag::bigint && detail::is_integer_value(value_))
             {
                 auto sv1 = instance.as_string_view();
                 bigint n1(sv1.data(), sv1.length());
@@ -1899,7 +1906,7 @@ namespace detail {
                     }
                 }
             }
-            else if (instance.is_string_view() && instance.tag() == semantic_tag::bigint)
+            else if (instance.is_string_view() && instance.tag() == semantic_tag::bigint && detail::is_integer_value(value_))
             {
                 auto sv1 = instance.as_string_view();
                 bigint n1(sv1.data(), sv1.length());
